@@ -840,7 +840,7 @@ func c10CoqFs(fss types.FsSlice) string {
 	return "[" + strings.Join(parts, "; ") + "]"
 }
 
-func yq(s string) string { // a YAML double-quoted scalar
+func c10yq(s string) string { // a YAML double-quoted scalar
 	b, _ := json.Marshal(s)
 	return string(b)
 }
@@ -857,7 +857,7 @@ var c10LabelKeys = []string{"app", "tier", "x"}
 var c10LabelVals = []string{"x", "x-1", "ax", "web"}
 var c10LabelSels = []string{"", "", "", "app=x", "app==x", "app!=x", "app", "!app", "app=x,tier=web", "tier=web", "x", "app=ax", "app = x", "app in (x)", "app=x,"}
 
-func pickN(r *Rng, l []string) string { return l[r.Intn(len(l))] }
+func c10PickN(r *Rng, l []string) string { return l[r.Intn(len(l))] }
 func pickInt(r *Rng, l []int) int      { return l[r.Intn(len(l))] }
 
 // ---------- resource generator (block YAML text) ----------
@@ -983,30 +983,30 @@ var c10OddConts = []string{
 
 func c10GenRes(r *Rng, odd bool) c10Res {
 	k := c10Kinds[r.Intn(len(c10Kinds))]
-	res := c10Res{APIVersion: k[0], Kind: k[1], Name: pickN(r, c10Names), Namespace: pickN(r, c10Namespaces)}
+	res := c10Res{APIVersion: k[0], Kind: k[1], Name: c10PickN(r, c10Names), Namespace: c10PickN(r, c10Namespaces)}
 	if res.Kind == "Namespace" || res.Kind == "CustomResourceDefinition" {
 		res.Namespace = ""
 	}
 	for i := r.Intn(3); i > 0; i-- {
-		key := pickN(r, c10LabelKeys)
+		key := c10PickN(r, c10LabelKeys)
 		dup := false
 		for _, kv := range res.Labels {
 			dup = dup || kv[0] == key
 		}
 		if !dup {
-			res.Labels = append(res.Labels, [2]string{key, pickN(r, c10LabelVals)})
+			res.Labels = append(res.Labels, [2]string{key, c10PickN(r, c10LabelVals)})
 		}
 	}
 	if r.Chance(30) {
-		res.Annos = append(res.Annos, [2]string{pickN(r, c10LabelKeys), pickN(r, c10LabelVals)})
+		res.Annos = append(res.Annos, [2]string{c10PickN(r, c10LabelKeys), c10PickN(r, c10LabelVals)})
 	}
 	if res.contPath() != "none" {
 		for i := r.Intn(4); i > 0; i-- {
-			c := c10Cont{Name: pickN(r, c10Names)}
+			c := c10Cont{Name: c10PickN(r, c10Names)}
 			if !r.Chance(8) {
-				c.Image = pickN(r, c10Images)
+				c.Image = c10PickN(r, c10Images)
 				if strings.HasSuffix(c.Image, ":") || strings.HasSuffix(c.Image, "@") || c.Image == "x:1:2" {
-					c.Image = yq(c.Image)
+					c.Image = c10yq(c.Image)
 				}
 			}
 			if r.Chance(25) {
@@ -1016,10 +1016,10 @@ func c10GenRes(r *Rng, odd bool) c10Res {
 			}
 		}
 		if odd && r.Chance(12) {
-			res.ContsRaw = pickN(r, c10OddConts)
+			res.ContsRaw = c10PickN(r, c10OddConts)
 		}
 		if r.Chance(55) {
-			res.Replicas = pickN(r, []string{"1", "2", "\"2\"", "null", "{a: b}", "3", "[1]"})
+			res.Replicas = c10PickN(r, []string{"1", "2", "\"2\"", "null", "{a: b}", "3", "[1]"})
 			if !odd && (res.Replicas == "{a: b}" || res.Replicas == "[1]") {
 				res.Replicas = "1"
 			}
@@ -1028,7 +1028,7 @@ func c10GenRes(r *Rng, odd bool) c10Res {
 	if r.Chance(25) {
 		n := 1 + r.Intn(2)
 		for i := 0; i < n; i++ {
-			res.Prev = append(res.Prev, [3]string{pickN(r, c10Names), pickN(r, []string{"default", "ns", "ns-1"}), pickN(r, []string{res.Kind, res.Kind, "Deployment", "Pod"})})
+			res.Prev = append(res.Prev, [3]string{c10PickN(r, c10Names), c10PickN(r, []string{"default", "ns", "ns-1"}), c10PickN(r, []string{res.Kind, res.Kind, "Deployment", "Pod"})})
 		}
 	}
 	if odd && r.Chance(1) { // malformed previous-id annotations
@@ -1038,7 +1038,7 @@ func c10GenRes(r *Rng, odd bool) c10Res {
 		res.Prev = nil
 	}
 	if odd && r.Chance(10) {
-		res.Extra = pickN(r, []string{"other:\n  containers:\n  - name: q\n    image: x:9\n", "containers:\n- image: x\n", "status:\n  initContainers:\n  - image: ax:1\n"})
+		res.Extra = c10PickN(r, []string{"other:\n  containers:\n  - name: q\n    image: x:9\n", "containers:\n- image: x\n", "status:\n  initContainers:\n  - image: ax:1\n"})
 	}
 	return res
 }
@@ -1092,27 +1092,27 @@ type c10Case struct {
 func c10GenRegexText(r *Rng, depth int) string {
 	atoms := []string{"a", "b", "x", "-", "\\.", ".", "[ab]", "[^a]", "[a-c1]", "1", "ab", "x-1", "\\d", "[a-z]+"}
 	if depth <= 0 {
-		return pickN(r, atoms)
+		return c10PickN(r, atoms)
 	}
 	switch r.Intn(12) {
 	case 0, 1, 2:
-		return pickN(r, atoms)
+		return c10PickN(r, atoms)
 	case 3, 4:
 		return c10GenRegexText(r, depth-1) + c10GenRegexText(r, depth-1)
 	case 5:
 		return c10GenRegexText(r, depth-1) + "|" + c10GenRegexText(r, depth-1)
 	case 6:
-		return "(" + c10GenRegexText(r, depth-1) + ")" + pickN(r, []string{"*", "+", "?", "", "{2}", "{1,2}"})
+		return "(" + c10GenRegexText(r, depth-1) + ")" + c10PickN(r, []string{"*", "+", "?", "", "{2}", "{1,2}"})
 	case 7:
-		return "(?:" + c10GenRegexText(r, depth-1) + ")" + pickN(r, []string{"*", "+", "?", ""})
+		return "(?:" + c10GenRegexText(r, depth-1) + ")" + c10PickN(r, []string{"*", "+", "?", ""})
 	case 8:
 		return "^" + c10GenRegexText(r, depth-1)
 	case 9:
 		return c10GenRegexText(r, depth-1) + "$"
 	case 10:
-		return pickN(r, atoms) + pickN(r, []string{"*", "+", "?", "*?", "+?"})
+		return c10PickN(r, atoms) + c10PickN(r, []string{"*", "+", "?", "*?", "+?"})
 	default:
-		return "(^|" + c10GenRegexText(r, depth-1) + ")" + pickN(r, []string{"", "*", "+"})
+		return "(^|" + c10GenRegexText(r, depth-1) + ")" + c10PickN(r, []string{"", "*", "+"})
 	}
 }
 
@@ -1121,7 +1121,7 @@ func c10GenSubject(r *Rng) string {
 	n := r.Intn(7)
 	var b strings.Builder
 	for i := 0; i < n; i++ {
-		b.WriteString(pickN(r, al))
+		b.WriteString(c10PickN(r, al))
 	}
 	return b.String()
 }
@@ -1146,19 +1146,19 @@ func c10RunRegex(run *Run, c c10Case) {
 
 // ---------- image value ----------
 func c10GenImage(r *Rng) c10Image {
-	im := c10Image{Name: pickN(r, c10ImgEntryNames)}
+	im := c10Image{Name: c10PickN(r, c10ImgEntryNames)}
 	if r.Chance(50) {
-		im.NewName = pickN(r, []string{"new", "reg:5000/new", "x", "x.y"})
+		im.NewName = c10PickN(r, []string{"new", "reg:5000/new", "x", "x.y"})
 	}
 	switch r.Intn(8) {
 	case 0, 1:
-		im.NewTag = pickN(r, []string{"v2", "latest", "a:b"})
+		im.NewTag = c10PickN(r, []string{"v2", "latest", "a:b"})
 	case 2:
-		im.Digest = pickN(r, []string{"sha256:fff", "sha512:0"})
+		im.Digest = c10PickN(r, []string{"sha256:fff", "sha512:0"})
 	case 3:
 		im.NewTag, im.Digest = "v3", "sha256:eee"
 	case 4, 5:
-		im.TagSuffix = pickN(r, []string{"-s", "-dev"})
+		im.TagSuffix = c10PickN(r, []string{"-s", "-dev"})
 	case 6:
 		im.TagSuffix, im.NewTag = "-s", "v9"
 	}
@@ -1230,8 +1230,8 @@ func c10Transform(name, config string, texts []string) (cls string, origT, after
 }
 
 func c10RunImageTr(run *Run, c c10Case, imgFs types.FsSlice) {
-	cfg := "imageTag:\n  name: " + yq(c.Image.Name) + "\n  newName: " + yq(c.Image.NewName) + "\n  newTag: " + yq(c.Image.NewTag) +
-		"\n  digest: " + yq(c.Image.Digest) + "\n  tagSuffix: " + yq(c.Image.TagSuffix) + "\n" + c10FsYaml(imgFs)
+	cfg := "imageTag:\n  name: " + c10yq(c.Image.Name) + "\n  newName: " + c10yq(c.Image.NewName) + "\n  newTag: " + c10yq(c.Image.NewTag) +
+		"\n  digest: " + c10yq(c.Image.Digest) + "\n  tagSuffix: " + c10yq(c.Image.TagSuffix) + "\n" + c10FsYaml(imgFs)
 	cls, orig, after, ok, changed := c10Transform("ImageTagTransformer", cfg, c.Docs)
 	run.Count("imagetr", cls)
 	tab := newPtab()
@@ -1247,7 +1247,7 @@ func c10RunImageTr(run *Run, c c10Case, imgFs types.FsSlice) {
 }
 
 func c10RunReplica(run *Run, c c10Case, repFs types.FsSlice) {
-	cfg := "replica:\n  name: " + yq(c.RName) + "\n  count: " + strconv.FormatInt(c.RCount, 10) + "\n" + c10FsYaml(repFs)
+	cfg := "replica:\n  name: " + c10yq(c.RName) + "\n  count: " + strconv.FormatInt(c.RCount, 10) + "\n" + c10FsYaml(repFs)
 	cls, orig, after, ok, changed := c10Transform("ReplicaCountTransformer", cfg, c.Docs)
 	run.Count("replica", cls)
 	if !ok {
@@ -1299,25 +1299,25 @@ func c10ClusterScoped(nodes []*kyaml.RNode, extra ...resid.Gvk) []resid.Gvk {
 func c10GenSel(r *Rng) c10Sel {
 	s := c10Sel{}
 	if r.Chance(60) {
-		s.Name = pickN(r, c10NamePats)
+		s.Name = c10PickN(r, c10NamePats)
 	}
 	if r.Chance(40) {
-		s.Kind = pickN(r, []string{"Deployment", "Deploy.*", "Pod|Deployment", "Pod", ".*Set", "MyKind", "Dep", "eployment", "", "Namespace", "[A-Z][a-z]+"})
+		s.Kind = c10PickN(r, []string{"Deployment", "Deploy.*", "Pod|Deployment", "Pod", ".*Set", "MyKind", "Dep", "eployment", "", "Namespace", "[A-Z][a-z]+"})
 	}
 	if r.Chance(20) {
-		s.Group = pickN(r, []string{"apps", "app", "apps|batch", "example.com", "example.com", ".*", "exampleXcom"})
+		s.Group = c10PickN(r, []string{"apps", "app", "apps|batch", "example.com", "example.com", ".*", "exampleXcom"})
 	}
 	if r.Chance(15) {
-		s.Version = pickN(r, []string{"v1", "v1.*", "v", "v1beta1"})
+		s.Version = c10PickN(r, []string{"v1", "v1.*", "v", "v1beta1"})
 	}
 	if r.Chance(40) {
-		s.Namespace = pickN(r, []string{"ns", "ns-1", "default", "n", "ns.*", ".*", "ans|ns", "_non_namespaceable_", "a("})
+		s.Namespace = c10PickN(r, []string{"ns", "ns-1", "default", "n", "ns.*", ".*", "ans|ns", "_non_namespaceable_", "a("})
 	}
 	if r.Chance(40) {
-		s.Lab = pickN(r, c10LabelSels)
+		s.Lab = c10PickN(r, c10LabelSels)
 	}
 	if r.Chance(20) {
-		s.Ann = pickN(r, c10LabelSels)
+		s.Ann = c10PickN(r, c10LabelSels)
 	}
 	return s
 }
@@ -1405,13 +1405,13 @@ var c10SplitPaths = []string{"spec.containers.[name=x].image", "metadata.annotat
 
 func c10GenSplitPath(r *Rng) string {
 	if r.Chance(50) {
-		return pickN(r, c10SplitPaths)
+		return c10PickN(r, c10SplitPaths)
 	}
 	parts := []string{"a", "b", "[", "]", ".", "=", "x", "\\", "[a", "b]", "c=d"}
 	n := 1 + r.Intn(8)
 	var b strings.Builder
 	for i := 0; i < n; i++ {
-		b.WriteString(pickN(r, parts))
+		b.WriteString(c10PickN(r, parts))
 	}
 	return b.String()
 }
@@ -1527,7 +1527,7 @@ func c10GenOpts(r *Rng, target bool) *c10Opts {
 	}
 	o := &c10Opts{}
 	if r.Chance(60) {
-		o.Delimiter = pickN(r, []string{":", "/", ".", "-", "::"})
+		o.Delimiter = c10PickN(r, []string{":", "/", ".", "-", "::"})
 		o.Index = r.Intn(5) - 1
 	}
 	if target && r.Chance(50) {
@@ -1545,17 +1545,17 @@ func c10GenIdSel(r *Rng, l []c10Res) c10Id {
 	if r.Chance(75) {
 		id.Kind = x.Kind
 		if r.Chance(15) {
-			id.Kind = pickN(r, []string{"Deployment", "Pod", "Dep"})
+			id.Kind = c10PickN(r, []string{"Deployment", "Pod", "Dep"})
 		}
 	}
 	if r.Chance(65) {
 		id.Name = x.Name
 		if r.Chance(25) {
-			id.Name = pickN(r, c10Names)
+			id.Name = c10PickN(r, c10Names)
 		}
 	}
 	if r.Chance(20) {
-		id.Namespace = pickN(r, []string{"default", "ns", "ns-1", x.Namespace})
+		id.Namespace = c10PickN(r, []string{"default", "ns", "ns-1", x.Namespace})
 	}
 	if r.Chance(10) {
 		gv := strings.Split(x.APIVersion, "/")
@@ -1619,10 +1619,10 @@ func c10GenRepl(r *Rng, l []c10Res) c10Repl {
 		rp.Source.Name = ""
 	}
 	if r.Chance(85) {
-		rp.Source.FieldPath = pickN(r, c10PathsFor(r, src, false))
+		rp.Source.FieldPath = c10PickN(r, c10PathsFor(r, src, false))
 	}
 	if r.Chance(22) {
-		rp.Source.Options = &c10Opts{Delimiter: pickN(r, []string{":", "/", ".", "-"}), Index: pickInt(r, []int{0, 0, 0, 0, 0, 0, 1, 1, 2, -1})}
+		rp.Source.Options = &c10Opts{Delimiter: c10PickN(r, []string{":", "/", ".", "-"}), Index: pickInt(r, []int{0, 0, 0, 0, 0, 0, 1, 1, 2, -1})}
 	}
 	nt := 1 + r.Intn(2)
 	for i := 0; i < nt; i++ {
@@ -1639,10 +1639,10 @@ func c10GenRepl(r *Rng, l []c10Res) c10Repl {
 			s.Namespace = tg.Namespace
 		}
 		if r.Chance(20) {
-			s.Lab = pickN(r, c10LabelSels)
+			s.Lab = c10PickN(r, c10LabelSels)
 		}
 		if r.Chance(8) {
-			s.Ann = pickN(r, c10LabelSels)
+			s.Ann = c10PickN(r, c10LabelSels)
 		}
 		t.Select = &s
 		if r.Chance(25) {
@@ -1651,7 +1651,7 @@ func c10GenRepl(r *Rng, l []c10Res) c10Repl {
 			if r.Chance(70) {
 				rj.Name = o.Name
 			} else {
-				rj.Lab = pickN(r, c10LabelSels)
+				rj.Lab = c10PickN(r, c10LabelSels)
 			}
 			t.Reject = append(t.Reject, rj)
 		}
@@ -1660,12 +1660,12 @@ func c10GenRepl(r *Rng, l []c10Res) c10Repl {
 			np = 2
 		}
 		for j := 0; j < np; j++ {
-			t.FieldPaths = append(t.FieldPaths, pickN(r, c10PathsFor(r, tg, true)))
+			t.FieldPaths = append(t.FieldPaths, c10PickN(r, c10PathsFor(r, tg, true)))
 		}
 		if r.Chance(45) {
 			t.Options = &c10Opts{}
 			if r.Chance(55) {
-				t.Options.Delimiter = pickN(r, []string{":", "/", ".", "-", "::"})
+				t.Options.Delimiter = c10PickN(r, []string{":", "/", ".", "-", "::"})
 				t.Options.Index = r.Intn(5) - 1
 			}
 			t.Options.Create = r.Chance(55)
@@ -1686,7 +1686,7 @@ func c10GenRepl(r *Rng, l []c10Res) c10Repl {
 func c10GenReplRandom(r *Rng, l []c10Res) c10Repl {
 	rp := c10Repl{}
 	if r.Chance(12) {
-		v := pickN(r, []string{"lit", "a:b:c", "", "x/y"})
+		v := c10PickN(r, []string{"lit", "a:b:c", "", "x/y"})
 		rp.SourceValue = &v
 		if r.Chance(10) {
 			rp.Source = &c10Source{c10Id: c10GenIdSel(r, l)}
@@ -1694,7 +1694,7 @@ func c10GenReplRandom(r *Rng, l []c10Res) c10Repl {
 	} else if !r.Chance(3) {
 		rp.Source = &c10Source{c10Id: c10GenIdSel(r, l), Options: c10GenOpts(r, false)}
 		if r.Chance(80) {
-			rp.Source.FieldPath = pickN(r, c10ReplFieldPaths)
+			rp.Source.FieldPath = c10PickN(r, c10ReplFieldPaths)
 		}
 	}
 	if r.Chance(3) {
@@ -1707,10 +1707,10 @@ func c10GenReplRandom(r *Rng, l []c10Res) c10Repl {
 		if !r.Chance(3) {
 			s := c10Sel{c10Id: c10GenIdSel(r, l)}
 			if r.Chance(25) {
-				s.Lab = pickN(r, c10LabelSels)
+				s.Lab = c10PickN(r, c10LabelSels)
 			}
 			if r.Chance(10) {
-				s.Ann = pickN(r, c10LabelSels)
+				s.Ann = c10PickN(r, c10LabelSels)
 			}
 			t.Select = &s
 		}
@@ -1720,12 +1720,12 @@ func c10GenReplRandom(r *Rng, l []c10Res) c10Repl {
 				rj.c10Id = c10GenIdSel(r, l)
 			}
 			if r.Chance(30) {
-				rj.Lab = pickN(r, c10LabelSels)
+				rj.Lab = c10PickN(r, c10LabelSels)
 			}
 			t.Reject = append(t.Reject, rj)
 		}
 		for j := r.Intn(3); j > 0; j-- {
-			t.FieldPaths = append(t.FieldPaths, pickN(r, c10ReplFieldPaths))
+			t.FieldPaths = append(t.FieldPaths, c10PickN(r, c10ReplFieldPaths))
 		}
 		rp.Targets = append(rp.Targets, t)
 	}
@@ -1969,14 +1969,14 @@ func runC10(run *Run, rng *Rng, tier string) error {
 		if g.Chance(30) { // the patterns the implementation builds
 			switch g.Intn(3) {
 			case 0:
-				c.Pat = c10ImgPattern(pickN(g, c10ImgEntryNames))
-				c.Subj = pickN(g, c10Images)
+				c.Pat = c10ImgPattern(c10PickN(g, c10ImgEntryNames))
+				c.Subj = c10PickN(g, c10Images)
 			case 1:
-				c.Pat = c10AnchorText(pickN(g, c10NamePats))
-				c.Subj = pickN(g, c10Names)
+				c.Pat = c10AnchorText(c10PickN(g, c10NamePats))
+				c.Subj = c10PickN(g, c10Names)
 			default:
-				c.Pat = pickN(g, c10NamePats)
-				c.Subj = pickN(g, c10Names)
+				c.Pat = c10PickN(g, c10NamePats)
+				c.Subj = c10PickN(g, c10Names)
 			}
 		}
 		cases = append(cases, c)
@@ -1985,12 +1985,12 @@ func runC10(run *Run, rng *Rng, tier string) error {
 	for i := 0; i < 220*scale; i++ {
 		g := rng.Fork()
 		im := c10GenImage(g)
-		v := pickN(g, c10Images)
+		v := c10PickN(g, c10Images)
 		if strings.HasSuffix(v, ":") || strings.HasSuffix(v, "@") || v == "x:1:2" || g.Chance(8) {
-			v = yq(v)
+			v = c10yq(v)
 		}
 		if g.Chance(6) {
-			v = pickN(g, []string{"null", "{a: b}", "[x]", "~", "\"\"", "1", "true"})
+			v = c10PickN(g, []string{"null", "{a: b}", "[x]", "~", "\"\"", "1", "true"})
 		}
 		cases = append(cases, c10Case{Kind: "imageval", Image: &im, Doc: "image: " + v + "\n"})
 	}
@@ -2003,7 +2003,7 @@ func runC10(run *Run, rng *Rng, tier string) error {
 	for i := 0; i < 110*scale; i++ {
 		g := rng.Fork()
 		l := c10GenResList(g, 1+g.Intn(6), true)
-		name := pickN(g, c10Names)
+		name := c10PickN(g, c10Names)
 		if g.Chance(80) && len(l) > 0 {
 			name = l[g.Intn(len(l))].Name
 			cands := []string{}
@@ -2016,7 +2016,7 @@ func runC10(run *Run, rng *Rng, tier string) error {
 				}
 			}
 			if len(cands) > 0 && g.Chance(80) {
-				name = pickN(g, cands)
+				name = c10PickN(g, cands)
 			}
 		}
 		cases = append(cases, c10Case{Kind: "replica", RName: name, RCount: int64(g.Intn(12)) - 1, Docs: c10Texts(l)})
@@ -2070,7 +2070,7 @@ func runC10(run *Run, rng *Rng, tier string) error {
 				}
 			}
 			if s.Lab != "" && len(x.Labels) > 0 && g.Chance(70) {
-				s.Lab = x.Labels[0][0] + pickN(g, []string{"=", "==", "!="}) + x.Labels[0][1]
+				s.Lab = x.Labels[0][0] + c10PickN(g, []string{"=", "==", "!="}) + x.Labels[0][1]
 			}
 		}
 		cases = append(cases, c10Case{Kind: "select", Sel: &s, Docs: c10Texts(l)})
@@ -2082,7 +2082,7 @@ func runC10(run *Run, rng *Rng, tier string) error {
 	// ---- PathMatcher / replacement (through child processes when hang-prone)
 	for i := 0; i < 260*scale; i++ {
 		g := rng.Fork()
-		c := c10Case{Kind: "match", Doc: pickN(g, c10MatchDocs), Path: c10MatchPaths[g.Intn(len(c10MatchPaths))]}
+		c := c10Case{Kind: "match", Doc: c10PickN(g, c10MatchDocs), Path: c10MatchPaths[g.Intn(len(c10MatchPaths))]}
 		if g.Chance(22) { // indices around the length of the list they address
 			pr := c10MatchPairs[g.Intn(len(c10MatchPairs))]
 			c.Doc = c10MatchDocs[pr.doc]
@@ -2091,7 +2091,7 @@ func runC10(run *Run, rng *Rng, tier string) error {
 				c.Path[len(c.Path)-1] = "0"
 			}
 			if g.Chance(50) {
-				c.Path = append(c.Path, pickN(g, []string{"image", "name", "0", "[name=x]", "*"}))
+				c.Path = append(c.Path, c10PickN(g, []string{"image", "name", "0", "[name=x]", "*"}))
 			}
 		}
 		if g.Chance(45) {
